@@ -333,6 +333,7 @@ func Run(r *evid.Run) {
 	r.Bound("named configurations: %d; operations: %v", len(cfgs), opNames)
 	product(r)
 	reorderStress(r)
+	wideObjects(r)
 }
 
 // product: the full 2^13 option product on the corpus (Format only; the other entry points
@@ -442,4 +443,63 @@ func reorderStress(r *evid.Run) {
 	})
 	r.Sample(map[string]any{"family": "reorder-stress", "input": string(docs[len(docs)/2])})
 	r.Bound("reorder stress: all ordered selections of 2..%d of %d members x 27 whitespace styles, flat and nested (%d documents) x %d configurations x {Format, AppendFormat-overlap, Canonicalize}", maxK, len(members), len(docs), len(cfgs))
+}
+
+// wideObjects: duplicate names around the 64-name / 1 KiB switch of the name set must make every
+// strict operation fail (value untouched) and every permissive one succeed.
+func wideObjects(r *evid.Run) {
+	ns := []int{64, 65, 66, 67, 68}
+	if r.Tier == "thorough" {
+		ns = []int{60, 61, 62, 63, 64, 65, 66, 67, 68, 69, 70, 130}
+	}
+	cfgs := []cfgReal{mk(fmtcfg.Cfg{}), mk(fmtcfg.Cfg{On: fmtcfg.Reorder}), mk(fmtcfg.Cfg{On: fmtcfg.AllowDup}), mk(fmtcfg.Cfg{On: fmtcfg.Multiline | fmtcfg.CanonInts})}
+	type unit struct{ n, fam int }
+	var units []unit
+	for _, n := range ns {
+		units = append(units, unit{n, 0}, unit{n, 1})
+	}
+	enum.Parallel(r, len(units), func(w *enum.Worker) func(int) {
+		c := &checker{out: map[string]int64{}}
+		w.Describe = func() any { return c.cur }
+		w.Done = func() { r.Outcomes(c.out) }
+		return func(u int) {
+			n := units[u].n
+			name := func(i int) string {
+				if units[u].fam == 1 {
+					return fmt.Sprintf("xxxxxxxxxxxxxx%02d", i)
+				}
+				return fmt.Sprintf("k%d", i)
+			}
+			for j := 1; j < n; j++ {
+				for i := 0; i < j; i++ {
+					if r.Tier != "thorough" && i%7 != j%7 && j != i+1 && j != n-1 {
+						continue
+					}
+					var bb bytes.Buffer
+					bb.WriteByte('{')
+					for k := 0; k < n; k++ {
+						if k > 0 {
+							bb.WriteByte(',')
+						}
+						nm := name(k)
+						if k == j {
+							nm = name(i)
+						}
+						fmt.Fprintf(&bb, `"%s":%d`, nm, k)
+					}
+					bb.WriteByte('}')
+					doc := bb.Bytes()
+					c.prep(doc)
+					for _, cf := range cfgs {
+						for _, op := range []int{0, 1, 5} {
+							c.check(r, doc, op, cf.c, cf.o)
+							r.Nontrivial.Add(1)
+						}
+					}
+					w.Beat()
+				}
+			}
+		}
+	})
+	r.Bound("wide objects: N in %v members (short and 16-byte names) with a duplicate at ordered pairs (i,j) x 4 configurations x {Format, AppendFormat, Canonicalize}", ns)
 }
